@@ -157,7 +157,7 @@ func checkC07(c *Ctx) (int, error) {
 	rng := rand.New(rand.NewSource(c.Seed))
 	nCont, maxPayload, nExtra := 4, 40, 300
 	if c.Tier == "thorough" {
-		nCont, maxPayload, nExtra = 20, 600, 6000
+		nCont, maxPayload, nExtra = 40, 800, 20000
 	}
 	type cont struct {
 		kind string
